@@ -771,11 +771,128 @@ def refresh_empty(I, term, seen):
             ctx.assume(term.length() == 0)
 
 
-def same_term_inner(I, t1, t2):
+import os as _os
+PEEL = not _os.environ.get("NOPEEL")
+UNDECIDED_GUARDS = []
+
+
+def peel_index(I, f, last):
+    """flatMap over range(n) with n >= 1 on the path, split at its first (last) index:
+    FM(range(n)) = body(0) ++ FM(j -> body(j + 1), range(n - 1))   resp.   FM(range(n - 1)) ++ body(n - 1)
+    (lemma flatMap_range_succ / flatMap_range_succ_last, lean/Lifting.lean).  The peeled index must take a path whose
+    guard is entailed (no fork); returns (items, rest) or None."""
+    from .loops import IndexSpace
+    ctx = I.ctx
+    src = f.src
+    if not isinstance(src, IndexSpace) or f.binds:
+        return None
+    if not ctx.entails(src.n >= 1):
+        return None
+    at = z3.simplify(src.n - 1) if last else z3.IntVal(0)
+    exprs = []
+    for p in f.paths:
+        exprs.append(f.inst(p.guard, at))
+    ctx.touch(exprs, TRUE)
+    chosen = None
+    for p in f.paths:
+        if ctx.entails(f.inst(p.guard, at)):
+            chosen = p
+            break
+    if chosen is None:
+        # no guard is entailed: the caller may split the proof over the (exclusive, exhaustive) guards of this index
+        UNDECIDED_GUARDS.append([f.inst(p.guard, at) for p in f.paths])
+        return None
+    items = [f.inst_elem(o, at) for o in chosen.outs]
+    for it in items:
+        ctx.touch([to_z3(x) for x in I.elem_parts(it) if is_z3(x)], TRUE)
+    if last:
+        rest_paths = f.paths
+        rest_src = IndexSpace(I, z3.simplify(src.n - 1), src.start)
+    else:
+        sh = (f.jvar, f.jvar + 1)
+        rest_paths = [FMPath(z3.substitute(p.guard, sh), [I.elem_map(o, lambda e: z3.substitute(e, sh)) for o in p.outs],
+                             p.note) for p in f.paths]
+        rest_src = IndexSpace(I, z3.simplify(src.n - 1), src.start + 1)
+    rest = core.mk_fm(I, rest_src, f.jvar, rest_paths, f.etype, ())
+    return items, rest
+
+
+def peel_silent_ends(I, f1, f2, depth=0):
+    """two range-flatMaps whose ranges differ in length by one or two: the longer one is the shorter one plus end
+    indices that provably emit nothing (e.g. the pair formed with an inserted sentinel that the filter drops)"""
+    from .loops import IndexSpace
+    ctx = I.ctx
+    if not (isinstance(f1.src, IndexSpace) and isinstance(f2.src, IndexSpace)) or depth > 2:
+        return False
+    if ctx.entails(f1.src.n == f2.src.n):
+        return same_fm(I, f1, f2)[0]
+    for lg, sh, flip in ((f1, f2, False), (f2, f1, True)):
+        if not ctx.entails(z3.And(lg.src.n > sh.src.n, lg.src.n <= sh.src.n + 2, sh.src.n >= 0)):
+            continue
+        for last in (False, True):
+            r = peel_index(I, lg, last)
+            if r is None or r[0] or not isinstance(r[1], FM):
+                continue
+            rest = fuse(I, r[1])
+            if peel_silent_ends(I, rest, sh, depth + 1):
+                return True
+    return False
+
+
+def peel_align(I, s1, s2):
+    """make two segment lists comparable by peeling end indices off a range-flatMap that faces a segment of known
+    items on the other side (the loop over range(len(xs) - 1) of a list that got a head / tail element inserted)"""
+    s1, s2 = list(s1), list(s2)
+    for _ in range(4):
+        changed = False
+        for last in (False, True):
+            k = -1 if last else 0
+            if not s1 or not s2:
+                break
+            a, b = s1[k], s2[k]
+            for x, y, sy in ((a, b, s2), (b, a, s1)):
+                if x.kind == "conc" and y.kind == "fm":
+                    r = peel_index(I, y.fm, last)
+                    if r is None:
+                        continue
+                    items, rest = r
+                    new = segments(I, rest)
+                    if items:
+                        cs = Seg("conc", items=items, term=None)
+                        new = new + [cs] if last else [cs] + new
+                    if last:
+                        sy[-1:] = new
+                    else:
+                        sy[0:1] = new
+                    changed = True
+                    break
+            if changed:
+                break
+        if not changed:
+            break
+    return merge_conc(s1), merge_conc(s2)
+
+
+def same_term_inner(I, t1, t2, depth=0):
     if t1 is t2:
         return True, None
     s1 = merge_conc(segments(I, t1))
     s2 = merge_conc(segments(I, t2))
+    if PEEL and [x.kind for x in s1] != [x.kind for x in s2]:
+        del UNDECIDED_GUARDS[:]
+        s1, s2 = peel_align(I, s1, s2)
+        if [x.kind for x in s1] != [x.kind for x in s2] and UNDECIDED_GUARDS and depth < 3:
+            # proof by cases over the paths the peeled end index can take
+            ctx = I.ctx
+            for g in list(UNDECIDED_GUARDS[0]):
+                with ctx.scoped():
+                    ctx.assume(g)
+                    if ctx.entails(z3.BoolVal(False)):
+                        continue
+                    ok, why = same_term_inner(I, t1, t2, depth + 1)
+                    if not ok:
+                        return ok, why
+            return True, None
     if len(s1) != len(s2):
         ok, why = same_by_extensionality(I, t1, t2)
         return ok, why
@@ -791,6 +908,8 @@ def same_term_inner(I, t1, t2):
                     return ok, why
         elif a.kind == "fm":
             ok, why = same_fm(I, a.fm, b.fm)
+            if not ok and PEEL and peel_silent_ends(I, a.fm, b.fm):
+                ok = True
             if not ok:
                 return ok, why
         else:
@@ -886,6 +1005,10 @@ def same_fm(I, f1, f2):
             continue
         goals.append(z3.Implies(c1 > k, I.elem_eq(o1, o2)))
     goal = z3.Implies(inrange, z3.And(goals))
+    if I.engine_opts.get("touch"):
+        # the list elements the two bodies mention at index j become indices of interest (pair / adjacency facts of
+        # the underlying lists are instantiated for them)
+        ctx.touch(goals, inrange)
     if ctx.entails(goal, patient=True):
         return True, None
     return False, ("per-element bodies differ", goal)
